@@ -14,7 +14,7 @@ import (
 )
 
 func init() {
-	register("C02", "Decides necessary conditions of the fixpoint clause only: in the converged state (every eligible node holds exactly one up-to-date pod, no other daemon pod exists) a sync plans nothing — (Q1) every node that can reach Result.PodsToCreate was appended under the fact `the node's pod is nil`; (Q2) every node that can reach Result.PodsToDelete was appended under the fact `the up-to-date comparison of that node's pod is false`; (Q3) every pod that can reach the clean-up list is appended under `phase Failed`, under `node not in the eligible map`, or is a non-first element of a per-node duplicate list; (Q4) the planner of replica sets that are neither active nor canary stores no pod operation; (Q5) status.canary, whose nodes the active replica set leaves alone, is decided on every path to the status write, so a stale canary cannot keep nodes out of the rollout for ever. Reaching that state within a bounded number of rounds (liveness over fair histories of two controllers and the kubelet) is NOT decided.", runC02)
+	register("C02", "Decides necessary conditions of the fixpoint clause only: in the converged state (every eligible node holds exactly one up-to-date pod, no other daemon pod exists) a sync plans nothing — (Q1) every node that can reach Result.PodsToCreate was appended under the fact `the node's pod is nil`; (Q2) every node that can reach Result.PodsToDelete was appended under the fact `the up-to-date comparison of that node's pod is false`; (Q3) every pod that can reach the clean-up list is appended under `phase Failed`, under `node not in the eligible map`, or is a non-first element of a per-node duplicate list; (Q4) the planner of replica sets that are neither active nor canary stores no pod operation; (Q5) status.canary, whose nodes the active replica set leaves alone, is decided on every path to the status write, so a stale canary cannot keep nodes out of the rollout for ever. In addition, structural necessary conditions of progress towards that state, each of which stalls the rollout for ever when broken: (Q6) defaulting is a fixed point recognised by IsDefaulted; (Q7) eligibility is decided by selector, required affinity and NoSchedule/NoExecute taints; (Q8) creations/deletions are withheld exactly by the pause/freeze annotations; (Q9) the creation/deletion budgets are computed from the matching counters and spec values, percentages rounded up; (Q10) the comparison and the constructor build the node-resources annotation key from the same roles; (Q11) every outdated pod that is not already terminating becomes a deletion candidate; (Q12) a per-batch throttle lets the batch run once its period has elapsed. Reaching the converged state within a bounded number of rounds (liveness over fair histories of two controllers and the kubelet) is NOT decided.", runC02)
 }
 
 func ersReconcile(r *Run) (*ssa.Function, map[*ssa.Function]bool) {
